@@ -8,6 +8,5 @@ mkdir -p /verif/bin
 go build -o /verif/bin/vcheck ./cmd/vcheck
 go build -o /verif/bin/simgen ./cmd/simgen
 if [ "$1" != "nowarm" ]; then
-  VERIF_DIR=/tmp/vcheck-warm-$$ /verif/bin/vcheck -property C09 -runs 2 >/dev/null 2>&1 || true
-  rm -rf /tmp/vcheck-warm-$$
+  /verif/bin/vcheck -property C09 -runs 2 -noevidence -noshrink >/dev/null 2>&1 || true
 fi
